@@ -130,3 +130,56 @@ pub open spec fn load_value_effect(t: St, ext: bool, fst: Temporary, snd: Tempor
         if share { share_effect(t2, get(t2, fst), 1) } else { t2 }
     }
 }
+
+// ---- multi-field stores / loads (one block) -----------------------------------------------------------
+
+/// zero the pointer slots of fields 0..k of block `mb`
+pub open spec fn store_zeros_effect(t: St, mb: Register, k: int) -> St
+    decreases k,
+{
+    if k <= 0 { t } else {
+        let t1 = store_zeros_effect(t, mb, k - 1);
+        St { mem: t1.mem.insert(rd(t1, mb) as int + 16 + 16 * (k - 1), 0), ..t1 }
+    }
+}
+
+/// the last `i` bindings of `bs` stored, right to left, into fields ff-1, ff-2, .. of block `mb`; the
+/// variable `bs[j]` lives at environment position `rem + j`
+pub open spec fn store_values_iter(t: St, bs: Seq<ContextBinding>, rem: int, mb: Register, ff: int, i: int) -> St
+    decreases i,
+{
+    if i <= 0 { t } else {
+        let t1 = store_values_iter(t, bs, rem, mb, ff, i - 1);
+        let j = bs.len() - i;
+        store_value_effect(t1, is_ext(bs[j]), tfp(2 * (rem + j)), tfp(2 * (rem + j) + 1), mb, ff - i)
+    }
+}
+
+/// effect of `store_values`: all bindings stored into the last fields, the unused first fields marked with null
+pub open spec fn store_values_effect(t: St, bs: Seq<ContextBinding>, rem: int, mb: Register, ff: int) -> St {
+    store_zeros_effect(store_values_iter(t, bs, rem, mb, ff, bs.len() as int), mb, ff - bs.len())
+}
+
+/// the last `i` bindings of `bs` loaded, right to left, from fields ff-1, ff-2, .. of block `mb`
+pub open spec fn load_values_iter(t: St, bs: Seq<ContextBinding>, ex: int, mb: Register, ff: int, share: bool, i: int) -> St
+    decreases i,
+{
+    if i <= 0 { t } else {
+        let t1 = load_values_iter(t, bs, ex, mb, ff, share, i - 1);
+        let j = bs.len() - i;
+        load_value_effect(t1, is_ext(bs[j]), tfp(2 * (ex + j)), tfp(2 * (ex + j) + 1), mb, ff - i, share)
+    }
+}
+
+/// zeroing fields neither reads nor writes the flags, and does not move SP
+pub proof fn lemma_store_zeros_nf(t: St, mb: Register, k: int)
+    ensures
+        st_eq(store_zeros_effect(nf(t), mb, k), nf(store_zeros_effect(t, mb, k))),
+        store_zeros_effect(t, mb, k).sp == t.sp,
+    decreases k,
+{
+    if k > 0 {
+        lemma_store_zeros_nf(t, mb, k - 1);
+        lemma_st_eq(store_zeros_effect(nf(t), mb, k - 1), nf(store_zeros_effect(t, mb, k - 1)));
+    }
+}
